@@ -47,6 +47,7 @@ type Interp struct {
 	funcs      map[types.Object]funcInfo
 	live       Node
 	logs       []map[*Cell]Value      // write logs of the enclosing symbolic branches
+	rawIte     bool                   // ite without simplification under the path condition (see store)
 	forced     map[*ast.IndexExpr]int // index expressions pinned to one element while a symbolic-index store is expanded
 	frames     []*frame
 	ctl        []*loopCtl // enclosing breakable statements of all activations (innermost last)
@@ -157,7 +158,11 @@ func (in *Interp) store(c *Cell, v Value) {
 	// the old content: the write only takes effect on the other paths
 	if len(in.ctl) > 0 && c.V != nil {
 		if esc := in.escaped(); esc != False {
+			// this merge serves the paths that are NOT executing now (they rejoin after the loop / switch): it must not
+			// be simplified under the current path condition
+			in.rawIte = true
 			v = in.ite(esc, c.V, v)
+			in.rawIte = false
 		}
 	}
 	c.V = v
@@ -1267,6 +1272,7 @@ func (in *Interp) Try(f func()) (err error) {
 			in.ctlBase = 0
 			in.depth = 0
 			in.forced = nil
+			in.rawIte = false
 		}
 	}()
 	f()
